@@ -6,6 +6,7 @@ From Coq Require Import NArith List.
 Import ListNotations.
 From CXV Require Import Parse.Fold Parse.FoldThms.
 From CXV Require Gen.PinsC12.
+From CXV Require Import Gen.TopLoop Parse.Balanced Parse.TopLoop.
 From CXV Require Import Gen.TokTy Parse.Declarator Parse.DeclSpec Parse.EnumList Parse.NsHeader.
 Open Scope N_scope.
 
@@ -62,6 +63,18 @@ Proof. exact inline_nested_rejected. Qed.
 Theorem modelled_functions_are_the_pinned_ones : PinsC12.model_code_pinned = true.
 Proof. exact (eq_refl true). Qed.
 
+(* no documentation text leaks from one declaration into the next: after any
+   statement of the dispatch loop that is not a kept decoration the pending
+   text is None, whatever was pending before and whatever the statement was;
+   statements are dispatched one call each, in order *)
+Theorem pending_doc_text_does_not_leak : forall (D : Type) p l (s : stmt D),
+  kept D s = false -> pend D p (l ++ [s]) = None.
+Proof. exact pending_reset. Qed.
+
+Theorem statements_dispatched_once_in_order : forall (D : Type) p (l : list (stmt D)),
+  map fst (run D p l) = map (fun s => dispatch (s_ty D s)) l.
+Proof. exact calls_in_order. Qed.
+
 Print Assumptions namespace_header_decodes.
 Print Assumptions namespace_alias_decodes.
 Print Assumptions inline_nested_namespace_rejected.
@@ -76,3 +89,5 @@ Example c12_nonvacuous :
   = NS [(2, 2); (2, 4)] [] [(7, NS [(1, 1)] [] [(8, NS [(1, 3)] [] [])])].
 Proof. vm_compute. reflexivity. Qed.
 Print Assumptions modelled_functions_are_the_pinned_ones.
+Print Assumptions pending_doc_text_does_not_leak.
+Print Assumptions statements_dispatched_once_in_order.
